@@ -681,7 +681,7 @@ class Screen(BaseScreen, RealTerminal):
                     raise ValueError(insertcs)
 
                 if isinstance(inserttext, bytes):
-                    inserttext = inserttext.decode(encoding)
+                    inserttext = inserttext.decode(encoding, "replace")
 
                 output.extend(("\x08" * back, ias))  # pylint: disable=used-before-assignment  # defined in `if row`
 
